@@ -874,6 +874,20 @@ CORPUS_RAW = [
     ('one octet', 'ber', None, '30'), ('two octets', 'der', 'int', '0201'),
 ]
 
+def _definite_around_indefinite(n, tail=b''):
+    """a definite-length SEQUENCE { INTEGER 5, OCTET STRING in the constructed indefinite form with one chunk of n octets }:
+    the end-of-octets of the inner element lies more than a buffer into the stream, inside a definite-length frame"""
+    chunk = b'\x04\x82' + n.to_bytes(2, 'big') + pattern(n, 3)
+    inner = b'\x24\x80' + chunk + b'\x00\x00'
+    body = b'\x02\x01\x05' + inner
+    return (b'\x30\x82' + len(body).to_bytes(2, 'big') + body + tail).hex()
+
+
+CORPUS_RAW += [('definite frame around an indefinite element ending beyond the buffer (%d)' % n_, 'ber', None, _definite_around_indefinite(n_, tl_))
+               for n_, tl_ in ((8152, b''), (8178, b''), (8300, b''), (8300, b'\x05\x00'), (20000, b'\x02\x01\x07'))]
+CORPUS_RAW += [('explicit tag (definite) around an indefinite element ending beyond the buffer', 'ber', None,
+                (b'\xa3\x82' + (8300 + 8).to_bytes(2, 'big') + b'\x24\x80\x04\x82' + (8300).to_bytes(2, 'big') + pattern(8300, 5) + b'\x00\x00').hex())]
+
 CORPUS_DECODES = [
     # S4 on the real code: a definite SEQUENCE OF of 100-octet strings, 9 KiB, from a non-seekable stream
     ('S4 witness', ('ber', True, 0), ('seqof', ('str', 4)), ('of', [('s', pattern(98, j)) for j in range(92)])),
